@@ -1,4 +1,5 @@
 import Ovldverif.Model.JsonD
+import Ovldverif.Model.JsonE
 import Ovldverif.Model.Fn
 /-! Decoding / encoding for function-level scenarios (trusted glue). -/
 set_option autoImplicit false
@@ -15,7 +16,10 @@ def paramOfJson (j : Json) : Except String Param := do
   return { name := ← jNat (← jField j "name"), kind := k, required := ← jBool (← jField j "req"), ty := ← tyOfJson (← jField j "ty") }
 
 def argOfJson (j : Json) : Except String Arg := do
-  return { vid := ← jNat (← jField j "vid"), cls := ← tyOfJson (← jField j "cls"), subtler := ← tyOfJson (← jField j "subtler") }
+  let val ← match j.getObjVal? "val" with
+    | .ok v => dvalOfJson v
+    | .error _ => pure default
+  return { vid := ← jNat (← jField j "vid"), cls := ← tyOfJson (← jField j "cls"), subtler := ← tyOfJson (← jField j "subtler"), val := val }
 
 def srcOfJson (pool : Array Arg) (j : Json) : Except String ArgSrc := do
   let a ← jArr j
@@ -66,6 +70,7 @@ def outcomeToJson : Outcome → Json
   | .depth => Json.arr #[Json.str "depth"]
   | .keyError => Json.arr #[Json.str "keyerror"]
   | .cycle => Json.arr #[Json.str "cycle"]
+  | .raised => Json.arr #[Json.str "raised"]
   | .unsupported => Json.arr #[Json.str "unsupported"]
 
 def traceToJson (t : Trace) : Json :=
